@@ -28,6 +28,7 @@ def _new_angle(ex, name):
     return z3.Real('%s!%d' % (name, ex.fresh_cnt))
 
 
+RANGES = False      # numerical ranges of asin/atan/atan2 values (needed when the code compares angles; set by C08)
 HALF_PI_UP = z3.RealVal('1.5707963267948966193')     # slightly above pi/2
 HALF_PI_LO = z3.RealVal('1.5707963267948966192')
 PI_UP = z3.RealVal('3.1415926535897932385')
@@ -153,7 +154,8 @@ def stub_asin(ex, st, args, I):
     ex.fresh_cnt += 1
     c = z3.Real('cosasin!%d' % ex.fresh_cnt)
     st.add(z3.And(c >= 0, c * c == 1 - x * x))
-    st.add(z3.And(th >= -HALF_PI_UP, th <= HALF_PI_UP, (th > 0) == (x > 0), (th < 0) == (x < 0)))
+    if RANGES:
+        st.add(z3.And(th >= -HALF_PI_UP, th <= HALF_PI_UP, (th > 0) == (x > 0), (th < 0) == (x < 0)))
     _register(ex, st, th, x, c)
     return th
 
@@ -192,7 +194,8 @@ def stub_atan2(ex, st, args, I):
     c = z3.Real('cosat!%d' % ex.fresh_cnt)
     st.add(z3.And(r > 0, r * r == xz * xz + yz * yz, s * r == yz, c * r == xz))
     # principal value in (-pi, pi]: sign from y, quadrant from x (rational enclosures of pi, pi/2)
-    st.add(z3.And(th >= -PI_UP, th <= PI_UP, z3.Implies(yz > 0, th > 0), z3.Implies(yz < 0, th < 0),
+    if RANGES:
+      st.add(z3.And(th >= -PI_UP, th <= PI_UP, z3.Implies(yz > 0, th > 0), z3.Implies(yz < 0, th < 0),
                   z3.Implies(z3.And(yz == 0, xz > 0), th == 0), z3.Implies(z3.And(yz == 0, xz < 0), th >= PI_LO),
                   z3.Implies(xz > 0, z3.And(th > -HALF_PI_UP, th < HALF_PI_UP)),
                   z3.Implies(xz < 0, z3.Or(th > HALF_PI_LO, th < -HALF_PI_LO)),
@@ -218,7 +221,8 @@ def stub_atan(ex, st, args, I):
     s = z3.Real('sinat!%d' % ex.fresh_cnt)
     c = z3.Real('cosat!%d' % ex.fresh_cnt)
     st.add(z3.And(r > 0, r * r == 1 + tz * tz, s * r == tz, c * r == 1))
-    st.add(z3.And(th > -HALF_PI_UP, th < HALF_PI_UP, (th > 0) == (tz > 0), (th < 0) == (tz < 0)))
+    if RANGES:
+        st.add(z3.And(th > -HALF_PI_UP, th < HALF_PI_UP, (th > 0) == (tz > 0), (th < 0) == (tz < 0)))
     _register(ex, st, th, s, c)
     return th
 
